@@ -337,9 +337,28 @@ def write_evidence(ctx, mod, nviol, wall):
         notes=ctx.notes,
     )
     cov.update(ctx.extra)
+    # keep the keys the evidence schema types (exhaustive: boolean; counts: non-negative integers)
+    if "exhaustive" in cov and not isinstance(cov["exhaustive"], bool):
+        by = cov.pop("exhaustive")
+        cov["exhaustive_by_stream"] = by
+        cov["exhaustive"] = bool(by) and all(bool(v) for v in (by.values() if isinstance(by, dict) else [by]))
+    for k in ("states", "transitions", "traces_validated_against_impl", "programs", "disagreements_checked"):
+        if k in cov and not (isinstance(cov[k], int) and not isinstance(cov[k], bool) and cov[k] >= 0):
+            cov[k + "_detail"] = cov.pop(k)
+    if "explanation" in cov and not isinstance(cov["explanation"], str):
+        cov["explanation"] = json.dumps(cov["explanation"], default=str)
     ev = dict(property_id=ctx.pid, tier=ctx.tier, seed=ctx.seed, level="proof", coverage=cov,
               assumptions=list(getattr(mod, "ASSUMPTIONS", [])) + ctx.assumptions,
               wall_s=round(wall, 2), violations=nviol)
+    try:  # self-check against the evidence schema when it is available (never fatal)
+        import jsonschema
+        sp = "/root/.vp/EVIDENCE.schema.json"
+        if os.path.exists(sp):
+            jsonschema.validate(json.loads(json.dumps(ev, default=str)), json.load(open(sp)))
+    except ImportError:
+        pass
+    except Exception as e:  # pragma: no cover
+        print("EVIDENCE-SCHEMA-WARNING: %s" % str(e)[:300], file=sys.stderr)
     os.makedirs(os.path.join(VERIF, "evidence"), exist_ok=True)
     path = os.path.join(VERIF, "evidence", ctx.pid + ".json")
     tmp = path + ".tmp"
